@@ -145,24 +145,30 @@ def simp(e):
     return e
 
 
-def tz_bits(e, depth=0):
-    """conservative number of trailing zero bits of the bit-vector term e"""
+def tz_bits(e, depth=0, memo=None):
+    """conservative number of trailing zero bits of the bit-vector term e (memoised over the DAG, bounded work: nested ite
+    chains share sub-terms and an unmemoised walk is exponential)"""
     w = e.size()
     if z3.is_bv_value(e):
         v = e.as_long(); return w if v == 0 else (v & -v).bit_length() - 1
     if depth > 60 or not z3.is_app(e): return 0
-    k = e.decl().kind()
+    if memo is None: memo = {}
+    i = e.get_id(); hit = memo.get(i)
+    if hit is not None: return hit[0]
+    if len(memo) > 400: return 0
+    k = e.decl().kind(); r = 0
     if k == z3.Z3_OP_CONCAT:
         n = 0
         for c in reversed(e.children()):
-            t = tz_bits(c, depth + 1); n += t
+            t = tz_bits(c, depth + 1, memo); n += t
             if t < c.size(): break
-        return n
-    if k == z3.Z3_OP_BMUL: return min(w, sum(tz_bits(c, depth + 1) for c in e.children()))
-    if k in (z3.Z3_OP_BADD, z3.Z3_OP_BSUB): return min(tz_bits(c, depth + 1) for c in e.children())
-    if k == z3.Z3_OP_BNEG: return tz_bits(e.arg(0), depth + 1)
-    if k == z3.Z3_OP_ITE: return min(tz_bits(e.arg(1), depth + 1), tz_bits(e.arg(2), depth + 1))
-    return 0
+        r = n
+    elif k == z3.Z3_OP_BMUL: r = min(w, sum(tz_bits(c, depth + 1, memo) for c in e.children()))
+    elif k in (z3.Z3_OP_BADD, z3.Z3_OP_BSUB): r = min(tz_bits(c, depth + 1, memo) for c in e.children())
+    elif k == z3.Z3_OP_BNEG: r = tz_bits(e.arg(0), depth + 1, memo)
+    elif k == z3.Z3_OP_ITE: r = min(tz_bits(e.arg(1), depth + 1, memo), tz_bits(e.arg(2), depth + 1, memo))
+    memo[i] = (r, e)
+    return r
 
 
 def shr_exact(e, k):
@@ -289,7 +295,9 @@ class Exec:
             return s.solver.model() if r == z3.sat else None
         s.fallbacks += 1
         som = getattr(s.lim, 'som', False)
-        if not som:
+        # stage 0: a fresh solver with the formulas asserted decides most of what the assumption interface could not, in ms
+        fs = z3.Solver(); fs.set('timeout', min(2000, s.lim.query_ms)); fs.add(*assumptions); r = fs.check()
+        if r == z3.unknown and not som:
             # symbolic*symbolic products / division by non-power-of-2 constants: exact translation to integer arithmetic
             # (engine/bv2int.py; sat answers are re-validated on the original bit-vector formulas) before bit-blasting for real
             import bv2int
@@ -297,13 +305,13 @@ class Exec:
             if ir is not None:
                 dt = time.time() - t; s.qtime += dt; s.qmax = max(s.qmax, dt)
                 return ir[1]
-        if som: assumptions = [norm_extracts(a, s.normcache) for a in assumptions]
-        stages = ([('som', min(s.lim.query_ms, 3000))] if som else []) + [('plain', s.lim.query_ms)] + ([('som', s.lim.query_ms)] if som else [])
-        fs = None
-        for kind, ms in stages:
-            fs = z3.Then(z3.With('simplify', som=True, som_blowup=100000000), 'smt').solver() if kind == 'som' else z3.Solver()
-            fs.set('timeout', ms); fs.add(*assumptions); r = fs.check()
-            if r != z3.unknown: break
+        if r == z3.unknown:
+            if som: assumptions = [norm_extracts(a, s.normcache) for a in assumptions]
+            stages = ([('som', min(s.lim.query_ms, 3000))] if som else []) + [('plain', s.lim.query_ms)] + ([('som', s.lim.query_ms)] if som else [])
+            for kind, ms in stages:
+                fs = z3.Then(z3.With('simplify', som=True, som_blowup=100000000), 'smt').solver() if kind == 'som' else z3.Solver()
+                fs.set('timeout', ms); fs.add(*assumptions); r = fs.check()
+                if r != z3.unknown: break
         dt = time.time() - t; s.qtime += dt; s.qmax = max(s.qmax, dt)
         if r == z3.unknown: raise Inconclusive('solver returned unknown (%s) after %.1fs' % (fs.reason_unknown(), dt))
         return fs.model() if r == z3.sat else None
